@@ -6,7 +6,7 @@ from bounded.common import quiet
 ELS = ['C', 'N', 'O', 'H', 'Zr']
 
 
-def mk(n, terms=True, coeffs=True, extra=True, cell='ortho', seed=0, labels=True, typed=None, kinds=None):
+def mk(n, terms=True, coeffs=True, extra=True, cell='ortho', seed=0, labels=True, typed=None, kinds=None, xrev=False, long=False):
     """Structure with n atoms (n <= 6), a fixed pool of terms restricted to existing atoms, type tables."""
     from mofun import Atoms
     rnd = random.Random(seed * 7919 + n)
@@ -35,15 +35,22 @@ def mk(n, terms=True, coeffs=True, extra=True, cell='ortho', seed=0, labels=True
             kw[plural] = ts
             kw[name + '_types'] = [(i + seed) % nt for i in range(len(ts))]
             if coeffs:
-                kw[name + '_type_coeffs'] = ["%s_style %d.5 # %s%d" % (name, i + 1, name[0].upper(), i) for i in range(nt)]
+                kw[name + '_type_coeffs'] = ["%s_style %d.5 # %s%d%s" % (name, i + 1, name[0].upper(), i, "  a much longer coefficient comment" if long else "") for i in range(nt)]
             if extra:
                 kw['extra_%s_labels' % name] = ['_x_%s_a' % name, '_x_%s_b' % name]
                 kw['extra_%s_fields' % name] = [['%s%da' % (name[0], i), '%s%db' % (name[0], i)] for i in range(len(ts))]
     if coeffs:
-        kw['pair_coeffs'] = ["lj %d.25 3.%d # %s" % (i + 1, i, e) for i, e in enumerate(uniq)]
+        kw['pair_coeffs'] = ["lj %d.25 3.%d # %s%s" % (i + 1, i, e, "  long pair comment" if long else "") for i, e in enumerate(uniq)]
     if extra and n > 0:
         kw['extra_atom_labels'] = ['_site_occ', '_site_note']
         kw['extra_atom_fields'] = [['1.0', 'n%d' % i] for i in range(n)]
+    if xrev:
+        # same extra columns listed in the opposite order (values follow their labels)
+        for k in list(kw):
+            if k.startswith('extra_') and k.endswith('_labels'):
+                kw[k] = list(reversed(kw[k]))
+                f = k.replace('_labels', '_fields')
+                kw[f] = [list(reversed(r)) for r in kw[f]]
     with quiet():
         return Atoms(**kw)
 
